@@ -121,6 +121,10 @@ def one_case(ctx, data, cl, buf, policy_desc, mode, rng=None, wit=None):
     else:
         policy = kind
     st = RecStream(data, policy)
+    if (n + buf) % 5 == 0:
+        st.as_bytearray()
+    elif (n + buf) % 5 == 1:
+        st.as_reused_buffer_view()
     wit = wit or {'unit': {'kind': 'one', 'data_len': n, 'cl': cl, 'buf': buf, 'policy': list(policy_desc), 'mode': mode,
                            'data_seed': None}}
     where = f'{mode} len={n} CL={cl} buf={buf} policy={policy_desc[0]}'
